@@ -10,6 +10,7 @@ mod prog;
 mod readpaths;
 mod runner;
 mod seqmodel;
+mod sync;
 mod undo;
 mod util;
 mod weak;
@@ -27,6 +28,7 @@ fn main() {
         "seq" => seqmodel::cmd_seq(&args),
         "undo" => undo::cmd_undo(&args),
         "idset" => idset::cmd_idset(&args),
+        "sync" => sync::cmd_sync(&args),
         _ => {
             eprintln!("usage: ymon sim|replay ...");
             2
